@@ -23,6 +23,15 @@ REGFIELDS = 'dnmsatu'
 VECS = 6
 
 
+def mixed(ex):
+    """Hypothesis draws -> uniformly distributed generator. Measured on this Hypothesis version: in a tuple of bounded integers 75 % of the 32-bit draws
+    are below 2^16 (bit 20 set in 10 % of them) and index 0 of a 5-way choice is drawn 52 % of the time - as field bits of an instruction word that
+    leaves S / P / U / W / Rn / opcode bits at zero most of the time. Hypothesis therefore only supplies the example stream (distinct tuples, seeded by
+    VERIF_SEED); every value used to build a case is derived from a hash of the whole tuple."""
+    import hashlib
+    return random.Random(int.from_bytes(hashlib.blake2b(repr(ex).encode(), digest_size=16).digest(), 'big'))
+
+
 def build_word(row, raw, tweak):
     """word with the row's fixed bits, field bits from `raw`, register fields nudged towards 13/14/15/aliases by `tweak`"""
     nb = row.n
@@ -212,9 +221,8 @@ def shard(plan_ref, seed, examples):
               suppress_health_check=list(HealthCheck))
     @given(strat)
     def body(ex):
-        ri, raw, tweak, entropy, ci = ex
-        ri = (ri + entropy) % nrows          # Hypothesis biases small integers; the entropy term makes row coverage uniform
-        ci = (ci + (entropy >> 20)) % len(plan.cfgs)
+        mx = mixed(ex)
+        ri, raw, tweak, entropy, ci = mx.randrange(nrows), mx.getrandbits(32), mx.getrandbits(31), mx.getrandbits(64), mx.randrange(len(plan.cfgs))
         name = plan.rows[ri]
         tn, row = ROWS[name]
         w = build_word(row, raw, tweak)
@@ -238,7 +246,133 @@ def shard(plan_ref, seed, examples):
     return acc
 
 
+def shard_repeat(plan_ref, seed, examples):
+    """the same encoding executed twice by ONE instance with different processor state in between (X ; flag-setter ; [IT EQ ;] X): anything an
+    implementation remembers about an encoding from its first execution (decoded operands, carry-in of the immediate, "sets flags outside an IT
+    block") must not leak into the second. Every step is compared with the reference machine (which has no memory across steps by construction)."""
+    import importlib
+    mod, attr = plan_ref.split(':')
+    plan = getattr(importlib.import_module(mod), attr)
+    acc = Acc()
+    nrows = len(plan.rows)
+    strat = st.tuples(st.integers(0, nrows - 1), st.integers(0, 2 ** 32 - 1), st.integers(0, 2 ** 31 - 1), st.integers(0, 2 ** 64 - 1),
+                      st.integers(0, len(plan.cfgs) - 1))
+
+    @hypothesis.seed(seed)
+    @settings(max_examples=examples, deadline=None, database=None, phases=[Phase.generate], report_multiple_bugs=False,
+              suppress_health_check=list(HealthCheck))
+    @given(strat)
+    def body(ex):
+        mx = mixed(ex)
+        ri, raw, tweak, entropy, ci = mx.randrange(nrows), mx.getrandbits(32), mx.getrandbits(31), mx.getrandbits(64), mx.randrange(len(plan.cfgs))
+        name = plan.rows[ri]
+        tn, row = ROWS[name]
+        w = field_corner(row, build_word(row, raw, tweak), entropy)
+        rng = random.Random(entropy)
+        cfgname = plan.cfgs[ci]
+        thumb = tn != 'arm'
+        if not thumb:
+            x = e1.enc_arm(w)
+            mid = [e1.enc_arm(z) for z in rng.choice(((0xE1500000,), (0xE1700000,), (0xE3500001,), (0xE1B00000 | rng.randrange(1, 8),)))]   # CMP r0,r0 / CMN r0,r0 / CMP r0,#1 / MOVS r0,rK
+        else:
+            x = e1.enc_thumb(w, tn == 't32')
+            mid = [e1.enc_thumb(0x4280)]                                    # CMP r0,r0  (Z=1, C=1)
+            if rng.random() < 0.7:
+                mid.append(e1.enc_thumb(0xBF08 if rng.random() < 0.7 else 0xBF18))      # IT EQ (passes) / IT NE (fails): second X inside an IT block
+        code = x + b''.join(mid) + x + (b'\x00\xbf' * 4 if thumb else e1.enc_arm(0xE1A00000) * 2)
+        for _ in range(3):
+            kw = plan.case_kw(rng, row)
+            kw.pop('it', None)
+            hooked = plan.hooked[rng.randrange(len(plan.hooked))]
+            case = gen.step_case(rng, cfgname, thumb, code, steps=2 + len(mid), hooked=hooked, it=0, **kw)
+            if plan.tweak_case:
+                plan.tweak_case(rng, row, w, case)
+            res = diff.run(case)
+            reached = res.status not in ('unpred', 'skip') and res.step == 1 + len(mid) and res.row == name
+            acc.case(bool(reached), ('rep', w, case['state']['cpsr'], len(mid), cfgname), cls='repeat:' + ('second-execution-compared' if reached else 'ended-early'),
+                     sample=lambda: {'row': name, 'word': '%#x' % w, 'code': code.hex(), 'steps': 2 + len(mid)})
+            if res.status in ('unpred', 'skip'):
+                acc.excluded += 1
+                if res.exc is not None and not target.escape_ok(res.exc):
+                    acc.violation('%s:repeat:host-error:%s' % (plan.prop, type(res.exc).__name__), case, {'exc': repr(res.exc)})
+                continue
+            if res.diffs:
+                if any(k for k in known.match(plan.prop, res, case)) or any(k for k in known.match_elsewhere(plan.prop, res, case)):
+                    acc.excluded += 1
+                    continue
+                acc.violation('%s:repeat:%s:step%d:%s' % (plan.prop, res.row, res.step, sig(res.diffs)), case,
+                              {'diffs(expected,observed)': e1.fmt_diff(res.diffs), 'ref_status': res.status, 'step': res.step})
+    body()
+    return acc
+
+
+_REGIONS = {}
+
+
+def decoder_regions():
+    """paths of armulator's two 32-bit class-selection decoders (provenance-tracking int, ~0.2 s each): [(table name, witness word, path literals)].
+    A decoder change that carves a new special case out of an encoding (one extra comparison) creates a new path, hence a new witness here -
+    which random field values would reach with probability 2^-(number of bits compared)."""
+    if not _REGIONS:
+        from vf.props import c06, c07, decode_common as dc
+        from vf.sym import sym
+        _REGIONS['arm'] = [(w, tr) for w, tr, _ in sym.enumerate_paths(lambda w: dc.outcome_of(c06.decoder, w), 32)]
+        _REGIONS['t32'] = [(w, tr) for w, tr, _ in sym.enumerate_paths(lambda w: dc.outcome_of(c07.dec32, w), 32, fixed=list(c07.TOP3))]
+    return _REGIONS
+
+
+def shard_witness(plan_ref, part, nparts, seed, per_region):
+    """executes witnesses and solver-generated members of every decoder path whose reference row belongs to the plan (complete E1 comparison)"""
+    import importlib
+    from vf.props import decode_common as dc
+    from vf.ref.enc import decode as table_decode
+    from vf.props.c05 import passing_flags
+    mod, attr = plan_ref.split(':')
+    plan = getattr(importlib.import_module(mod), attr)
+    rows = set(plan.rows)
+    acc = Acc()
+    rng = random.Random(seed)
+    idx = 0
+    for tn, regs in sorted(decoder_regions().items()):
+        table = TABLES[tn]
+        for w0, trace in regs:
+            idx += 1
+            if idx % nparts != part:
+                continue
+            for w in [w0] + dc.members(w0, trace, 32, rng, per_region):
+                row, _f = table_decode(table, w)
+                if row is None or row.name not in rows:
+                    continue
+                thumb = tn != 'arm'
+                code = e1.enc_arm(w) if not thumb else e1.enc_thumb(w, True) + b'\x00\xbf\x00\xbf'
+                for _ in range(2):
+                    kw = plan.case_kw(rng, row)
+                    if thumb and 'pc_off' not in kw:
+                        kw['pc_off'] = rng.choice((0, 2))
+                    case = gen.step_case(rng, plan.cfgs[rng.randrange(len(plan.cfgs))], thumb, code, hooked=plan.hooked[rng.randrange(len(plan.hooked))], **kw)
+                    if not thumb and (w >> 28) < 14:
+                        case['state']['cpsr'] = (case['state']['cpsr'] & 0x0FFFFFFF) | (passing_flags(rng, w >> 28) << 28)
+                    if plan.tweak_case:
+                        plan.tweak_case(rng, row, w, case)
+                    acc.cls('decoder-path-witness')
+                    one_case(acc, plan, case, row.name, '%#x' % w)
+    return acc
+
+
+def witness_tasks(ctx, plan_ref, base=950, nparts=8):
+    return [(shard_witness, (plan_ref, i, nparts, ctx.shard_seed(base + i), ctx.n(6, 60))) for i in range(nparts)]
+
+
+def replay_multi(case):
+    res = diff.run(case)
+    if res.status in ('unpred', 'skip'):
+        return ['host-error'] if (res.exc is not None and not target.escape_ok(res.exc)) else []
+    return [sig(res.diffs)] if res.diffs else []
+
+
 def replay(plan, case):
+    if case.get('steps', 1) > 1 and plan.steps == 1:
+        return replay_multi(case)
     acc = Acc()
     one_case(acc, plan, case, '?', case['poke'][0][1])
     return sorted(acc.viol)
@@ -266,8 +400,10 @@ def minimise(plan, case, bucket):
     return cur
 
 
-def run_plan(ctx, plan_ref, plan, shards=32, quick=120, thorough=2400):
+def run_plan(ctx, plan_ref, plan, shards=32, quick=120, thorough=2400, witnesses=True):
     tasks = [(shard, (plan_ref, ctx.shard_seed(i), ctx.n(quick, thorough))) for i in range(shards)]
+    if witnesses:
+        tasks += witness_tasks(ctx, plan_ref)
     ctx.pmap(_dispatch, tasks)
     # minimise the first case of every violation bucket
     for b, v in list(ctx.acc.viol.items()):
